@@ -15,7 +15,8 @@ VERIF = os.path.dirname(os.path.dirname(os.path.abspath(__file__)))
 if VERIF not in sys.path:
     sys.path.insert(0, VERIF)
 
-CONTRACT_MODULES = ["c_host_vector", "c_network", "c_environment", "c_state", "c_layout", "c_action", "c_scenarios"]
+CONTRACT_MODULES = ["c_host_vector", "c_network", "c_environment", "c_state", "c_layout", "c_action", "c_scenarios",
+                    "c_loader"]
 BOUNDED_QUICK = [{"subnets": [1, 1, 2]}]
 BOUNDED_THOROUGH = [{"subnets": [1, 1, 2]}, {"subnets": [1, 2, 1, 1]}, {"subnets": [1, 1, 1, 1], "n_sens": 2},
                     {"subnets": [1, 3], "n_srv": 1, "n_os": 1, "n_proc": 1}]
@@ -126,7 +127,8 @@ def run_replay(cex, tree, path):
         json.dump(cex, f, indent=1)
     env = dict(os.environ, NASIM_TREE=tree, PYTHONPATH=tree)
     harness = cex.get("harness", "")
-    script = os.path.join(VERIF, "replay", "dyn_replay.py")
+    script = os.path.join(VERIF, "replay", "loader_replay.py" if harness == "loader" else
+                          ("gen_replay.py" if harness.startswith("gen") else "dyn_replay.py"))
     p = subprocess.run([sys.executable, script, path], env=env, stdout=subprocess.PIPE, stderr=subprocess.STDOUT,
                        text=True, timeout=600)
     try:
@@ -158,7 +160,8 @@ def check_property(prop, tier="quick", tree="/repo", record=False, jobs=None, le
         print(f"CHECKER-FAILURE property={prop}: no verification tasks")
         return 3, None
     bounded = BOUNDED_QUICK if tier == "quick" else BOUNDED_THOROUGH
-    jobsB = [(q, v, cfg, timeout_ms, tree, False, frozenset()) for (q, v) in tasks for cfg in bounded
+    jobsB = [(q, v, cfg, timeout_ms, tree, False, frozenset()) for (q, v) in tasks
+             for cfg in (bounded if not getattr(REG.contracts[q], "own_bounds", False) else [{"own": True}])
              if getattr(REG.contracts[q], "bounded", True)]
     unb = lambda q: getattr(REG.contracts[q], "unbounded", True)
     with mp.Pool(jobs or min(16, os.cpu_count() or 4)) as pool:
@@ -290,7 +293,7 @@ def check_property(prop, tier="quick", tree="/repo", record=False, jobs=None, le
         st = covers.get((q, v), [])
         if not any(s == "feasible" for s in st):
             lim = [r for r in resB if r["qualname"] == q and r["variant"] == v and r["limit"]]
-            if not lim and not getattr(REG.contracts[q], "may_have_no_normal_exit", False):
+            if not lim and not REG.contracts[q].must_not_return(v):
                 D.failures.append(f"vacuity guard: no feasible normal-exit path for {q}[{v}] (covers={st})")
     n_obl = len(agg)
     n_dis = sum(1 for a in agg.values() if a["discharged"] == a["instances"])
